@@ -100,6 +100,41 @@ def build_space(tree):
   return space
 
 
+def build_space_factory(tree):
+  """The same conditional space built bottom-up with ParameterConfig.factory(children=[(parent values, child)]):
+  multi-valued parent sets stay ONE child entry (the route protos with multi-valued conditions take)."""
+  from vizier import pyvizier as vz
+
+  def make(i):
+    node = tree[i]
+    kids = []
+    for j, child in enumerate(tree):
+      if child['parent'] == i + 1:
+        kids.append(([value_of(node['kind'], v) for v in sorted(child['pv'])], make(j)))
+    k = node['kind']
+    name = real_name(node['name'])
+    kw = {'children': kids} if kids else {}
+    if k == 'D':
+      return vz.ParameterConfig.factory(name, bounds=(0.0, 2.5), **kw)
+    if k == 'I':
+      return vz.ParameterConfig.factory(name, bounds=(-1, 2), **kw)
+    if k == 'S':
+      return vz.ParameterConfig.factory(name, feasible_values=[0.5, 1.0, 2.0], external_type=vz.ExternalType.FLOAT, **kw)
+    if k == 'Si':
+      return vz.ParameterConfig.factory(name, feasible_values=[1.0, 2.0, 3.0], external_type=vz.ExternalType.INTEGER, **kw)
+    if k == 'C':
+      return vz.ParameterConfig.factory(name, feasible_values=['a', 'b'], **kw)
+    if k == 'B':
+      return vz.ParameterConfig.factory(name, feasible_values=['False', 'True'], external_type=vz.ExternalType.BOOLEAN, **kw)
+    raise KeyError(k)
+
+  space = vz.SearchSpace()
+  for i, node in enumerate(tree):
+    if node['parent'] == 0:
+      space.add(make(i))
+  return space
+
+
 def run_mode(mode, workdir, invariants=()):
   cfg = os.path.join(workdir, 'SS_%s.cfg' % mode)
   tlc.write_cfg(cfg, constants={'Mode': mode}, constraints=['Dump'], invariants=list(invariants))
